@@ -9,7 +9,7 @@
    species lists on the implementation. *)
 From Coq Require Import Reals List ZArith Permutation.
 Import ListNotations.
-From MPC Require Import Num Species RInst StatMech RVec RSumIdx Radiation GenSpecies GenRadiation GenTransport Transport RefEnergy Gibbs C04_proofs C05_chain C07_proofs C15_proofs C12_split C05_transport C05_blocks C05_ext.
+From MPC Require Import Num Species RInst StatMech RVec RSumIdx Radiation GenSpecies GenRadiation GenTransport Transport RefEnergy Gibbs C04_proofs C05_chain C07_proofs C15_proofs C12_split C05_transport C05_blocks C05_ext C09_proofs C10_proofs C10_kkt C01_unique.
 Open Scope R_scope.
 
 Theorem C05_density_perm : forall (U : Units R) (l l' : list (R * species R)),
@@ -115,3 +115,21 @@ Theorem C05_blocks_of_relisted_mixture :
   = qhatblock RNum (Q_of U G T sps nd) masses nb ndf p p' (sigma i) (sigma j).
 Proof. intros U G sps nd nb sigma tau T Hs Hts masses ndf p p' i j Hi Hj. apply (blocks_of_relisted_mixture U G sps nd nb sigma tau T Hs Hts); assumption. Qed.
 Print Assumptions C05_blocks_of_relisted_mixture.
+
+(* the converged composition: the fixed point of the solver is unique (ideal mixture), and the statement is per species -- so for
+   any two listings of the same species, each solved to a fixed point with the same constraint totals, every species has the same
+   number density in both (pair the species of the two listings in any order: the theorem does not depend on the order of `ps`) *)
+Theorem C05_equilibrium_independent_of_listing :
+  forall (U : Units R) (T P : R) (ps : list (entry * entry)) (cols : list (list R)) (lam1 lam2 : list R),
+  0 < k_b U * T -> 0 < P -> ps <> [] -> Forall same_data ps -> Forall (pair_pos U T) ps ->
+  let nu := map (fun p => e_n (snd p) - e_n (fst p)) ps in
+  let mu1 := map (fun p => mu_at U T (Ntot (map fst ps) * (k_b U * T) / P) (fst p)) ps in
+  let mu2 := map (fun p => mu_at U T (Ntot (map snd ps) * (k_b U * T) / P) (snd p)) ps in
+  Forall (fun c => List.length c = List.length nu) cols ->
+  Forall2 (fun mi ai => mi = - ai) mu1 (alam RNum cols lam1 (repeat 0 (List.length nu))) ->
+  Forall2 (fun mi ai => mi = - ai) mu2 (alam RNum cols lam2 (repeat 0 (List.length nu))) ->
+  Forall (fun c => dotR c nu = 0) cols ->
+  forall p, In p ps ->
+    e_n (snd p) / (Ntot (map snd ps) * (k_b U * T) / P) = e_n (fst p) / (Ntot (map fst ps) * (k_b U * T) / P).
+Proof. exact kkt_points_same_densities. Qed.
+Print Assumptions C05_equilibrium_independent_of_listing.
